@@ -152,6 +152,28 @@ def run(ctx):
             pass
         shutil.rmtree(tmp, ignore_errors=True)
     ctx.counted('entry points x strings', evals, len(nontriv), samples)
+    # very long, very deeply nested patterns (bounded: a few thousand characters): brace expansion and the parser recurse on
+    # nesting depth; whatever happens inside, only documented errors come out and every route gives an answer
+    ndeep = 0
+    deep = [('{a,' * 700 + 'b' + '}' * 700, Fm.BRACE), ('{' * 700 + 'a,b' + '}' * 700, Fm.BRACE), ('{a,' * 450 + 'b' + '}' * 450, Fm.BRACE | Fm.SPLIT), ('{' * 900 + 'a' + '}' * 900, Fm.BRACE),
+            ('{1..2}' * 3 + '{' * 600 + 'x,y' + '}' * 600, Fm.BRACE), ('{a,b' + '{' * 800, Fm.BRACE), ('[' * 900 + 'a' + ']' * 900, 0), ('a|' * 1500 + 'b', Fm.SPLIT), ('!' * 1200 + 'a', Fm.NEGATE), ('\\' * 1000 + 'a', 0)]
+    for pt, fb in deep:
+        for isb in (False, True):
+            P = pt.encode() if isb else pt
+            nm = b'b' if isb else 'b'
+            for api, th in (('fnmatch.translate', lambda: Fm.translate(P, flags=fb)), ('fnmatch.fnmatch', lambda: Fm.fnmatch(nm, P, flags=fb)), ('fnmatch.filter', lambda: Fm.filter([nm], P, flags=fb)),
+                            ('glob.globmatch', lambda: Gm.globmatch(nm, P, flags=fb)), ('glob.translate', lambda: Gm.translate(P, flags=fb)), ('glob.compile', lambda: Gm.compile(P, flags=fb).match(nm)),
+                            ('glob.glob', lambda: Gm.glob(P, flags=fb, root_dir=os.fsencode(os.getcwd()) if isb else os.getcwd())),
+                            ('wcmatch.WcMatch', lambda: WM.WcMatch(b'.' if isb else '.', P, flags=fb & WM.BRACE).match() if b'|'[0] not in (P if isb else P.encode()) else None)):
+                ndeep += 1
+                try:
+                    th()
+                except Exception as e:
+                    if type(e).__name__ in DOCUMENTED and type(e).__name__ not in ('TypeError', 'ValueError'):
+                        continue
+                    ctx.counterexample('%s(<%d characters: %r...>, %s) raised %s: %s' % (api, len(pt), pt[:12], corr.flag_names(fb), type(e).__name__, str(e)[:80]),
+                                       {'api': api, 'pattern': pt, 'pattern_length': len(pt), 'bytes': isb, 'flags': corr.flag_names(fb)})
+    ctx.counted('long deeply nested patterns', ndeep, ndeep, [{'pattern': "'{a,' * 700 + 'b' + '}' * 700", 'flags': 'BRACE'}])
     common.replay_witnesses(ctx, [])
     return ctx.finish(RULE)
 
